@@ -113,6 +113,7 @@ class Profile:
     p_blank: float = 0.04
     p_fcomment: float = 0.06
     p_tandem: float = 0.10
+    p_mixed_interp: float = 0.06         # per null cell of a signature row: another kind of interpretation instead
     p_midsig: float = 0.08               # mid-score signature change rows
     sig_rows: tuple = ('clef', 'keysig', 'meter')   # initial signature kinds, each with p_sig
     p_sig: float = 0.85
@@ -332,6 +333,10 @@ class _Gen:
                     per_spine[sp] = txt
                 cells.append(Cell(kind, txt))
                 anything = True
+            elif kind != 'tandem' and rng.random() < p.p_mixed_interp:
+                # an interpretation row is a row of cells: a tempo mark or a key label beside a signature, a meter sign beside a meter
+                cells.append(Cell('tandem', rng.choice([t_ for t_ in TANDEMS if not t_.startswith('*xywh') and not t_.startswith('*staff')])))
+                self.doc.tags.add('mixed_interpretation_row')
             else:
                 cells.append(Cell('nullinterp', '*'))
         if not anything:
